@@ -13,5 +13,7 @@ for l in open(os.path.join(ROOT, "properties.jsonl")):
     files.update(json.loads(l)["anchors"]["files"])
 rec = {f: hashlib.sha256(open(os.path.join("/repo", f), "rb").read()).hexdigest() for f in sorted(files) if os.path.exists(os.path.join("/repo", f))}
 head = subprocess.run(["git", "-C", "/repo", "rev-parse", "HEAD"], stdout=subprocess.PIPE, text=True).stdout.strip()
-json.dump({"repo_head": head, "files": rec, "cfg_atoms": check.cfg_atoms()}, open(os.path.join(ROOT, "tools", "source_hashes.json"), "w"), indent=1, sort_keys=True)
+import re
+libm = {f: len(re.findall(r'feature\s*=\s*"libm"', open(os.path.join("/repo", f), encoding="utf-8", errors="replace").read())) for f in rec}
+json.dump({"repo_head": head, "files": rec, "cfg_atoms": check.cfg_atoms(), "libm_per_file": libm}, open(os.path.join(ROOT, "tools", "source_hashes.json"), "w"), indent=1, sort_keys=True)
 print(json.dumps(check.cfg_atoms(), indent=1, sort_keys=True))
